@@ -8,7 +8,7 @@ echo "== mutants"
 if [ "$1" != "fast" ]; then
 echo "== autotwin"
 /venv/bin/python -m selftest.autotwin 2>&1 | grep -v condarc | grep "false-alarm\|undecided\|error" | grep -v "^C.. {" | cut -c1-260
-echo "== seeded"
-/venv/bin/python tools/seeded.py 2>&1 | grep -v condarc | grep -v "own=VIOLATION"
+echo "== agent patches (seeded must be caught, refactors must be silent; in memory)"
+/venv/bin/python -m selftest.patches 2>&1 | grep -v condarc | grep -v "^C.. {"
 fi
 echo "== done"
